@@ -64,3 +64,6 @@ OBLIGATIONS = FT.fault_obligations('c03', 'C03') + [
 
 from harness.corace import OB_DEPS, task_dependencies  # noqa: E402
 OBLIGATIONS += [dict(OB_DEPS, id='C03.deps')]
+
+from harness.nsrun import ns_fault_obligations, nsfaulted  # noqa: E402
+OBLIGATIONS += ns_fault_obligations('c03', 'C03', ['up-stream', 'down-stream'])
